@@ -47,6 +47,18 @@ pub struct World {
     pub touches: BTreeMap<u64, BTreeSet<(u64, u64)>>,
 }
 
+impl World {
+    /// filters per `BlockFilters` answer of the honest peer in this world: all at once, or short
+    /// batches (then batches without a match arrive while matched blocks of an earlier batch are
+    /// still being downloaded).  Derived from the chain, not drawn, so that pinned seeds keep
+    /// their histories.
+    pub fn server_opts(&self) -> ServerOpts {
+        let x = self.chain.tip().hash().as_slice()[0] as u64;
+        let filters_batch = if x % 2 == 0 { server::BLOCK_FILTERS_BATCH } else { 3 + (x / 2) % 9 };
+        ServerOpts { filters_batch, ..Default::default() }
+    }
+}
+
 pub fn build_world(rng: &mut Rng, n_blocks: u64) -> World {
     let mut chain = SimChain::new_dummy();
     let mut touches: BTreeMap<u64, BTreeSet<(u64, u64)>> = BTreeMap::new();
@@ -270,7 +282,7 @@ pub(crate) fn run_steps(
     now: &mut u64,
 ) -> (Node, RunOut) {
     let chain = &world.chain;
-    let opts = ServerOpts::default();
+    let opts = world.server_opts();
     let mut node = Node::new(&chain.consensus, 5, 2000, 1);
     let peer = PeerIndex::new(1);
     set_now(*now);
@@ -480,7 +492,7 @@ pub(crate) fn classify(protocol: ProtocolId, data: &Bytes) -> (String, u64) {
 /// continue syncing with the honest peer until quiet; returns the per-script indexed blocks
 pub(crate) fn converge(node: &mut Node, world: &World, now: &mut u64) -> BTreeMap<u64, BTreeSet<u64>> {
     let chain = &world.chain;
-    let opts = ServerOpts::default();
+    let opts = world.server_opts();
     let peer = PeerIndex::new(1);
     // a request lost in a bounded round makes the client drop the peer after the message
     // timeout; the network layer would dial again, so does the harness.  The honest chain
